@@ -14,7 +14,7 @@ CHECKS = {
  "C06": ("MC_Query", "standardize_prefix/curie/uri canonical, idempotent, meaning-preserving: declarative formulas on logged answers"),
  "C07": ("MC_Query", "derived operations vs the two primitive parsers, incl. strings that are both CURIE and URI (pool contains the URI prefix 'a:' and the CURIE prefix 'a')"),
  "C08": ("MC_Query", "whole strict x passthrough matrix of the 14 functions: mode laws on logged outcomes incl. exception family"),
- "C09": ("MC_Derive", "chain (both case modes, both orders) and get_subconverter (every prefix subset) over all pairs of base converters (incl. a later record bridging two earlier ones): union, grouping, priority, case-fold separation, restriction; an Apalache inductive check of one chain step over UNBOUNDED strings"),
+ "C09": ("MC_Derive", "chain (both case modes, both orders) and get_subconverter (every prefix subset) over all pairs of base converters (incl. a later record bridging two earlier ones): union, grouping, priority, case-fold separation, restriction; TLAPS proofs (no bound) of the chain laws for one step of the fold; an Apalache inductive check of one chain step over UNBOUNDED strings"),
  "C10": ("MC_Derive + MC_Remap + MC_System", "frame condition as TLC action property (P_C10, and P_C10_sys for the steps that write and read files); after EVERY step the projection of EVERY live converter is compared with its previous one (all six derivations, follow-up merging adds on the derived converter, long tlc -simulate behaviours deriving from derived converters)"),
  "C11": ("MC_Remap", "every partial map over 4 names x every strict converter of <=2 records with <=1 synonym: documented errors, no prefix lost, URI side untouched"),
  "C12": ("MC_Derive", "every injective map (<=1 pair quick, <=2 thorough) for remap_uri_prefixes and rewire on one- and two-record converters; an Apalache check of the declarative statement over UNBOUNDED strings; rewire applied twice for idempotence"),
